@@ -37,6 +37,7 @@ type rworld struct {
 	otherKey string
 	otherIP  uint32
 	lease    time.Duration
+	dbfail   bool // every write to the lease database fails during the step
 }
 
 // rangeStart draws the first address of the range. The three high bytes are
@@ -125,6 +126,17 @@ func makeRange() *rworld {
 		w.p.Recordsv4[w.otherKey] = &Record{IP: ip4of(w.otherIP), expires: oexp}
 		dbInsert(w.p.leasedb, dbRow{mac: w.otherKey, ip: ip4of(w.otherIP).String(), expiry: oexp, hostname: ""})
 	}
+	// fault case: the lease database rejects every write during the step (disk
+	// full, I/O error). C02 must still hold; C03 is about what a successful
+	// write stored and is not asserted in this case.
+	if vnd.Pick("dbfail", 0, 1) == 1 {
+		w.dbfail = true
+		if vnd.Symbolic() {
+			dbFailing = true
+		} else {
+			w.p.leasedb.Close()
+		}
+	}
 	vnd.ClockJump()
 	return w
 }
@@ -189,7 +201,10 @@ func VerifH_range_step() {
 	}
 	post := w.alloc.VerifWords()
 	end := w.start + uint32(w.n) - 1
-	rows := dbAll(w.p.leasedb)
+	var rows []dbRow
+	if !w.dbfail {
+		rows = dbAll(w.p.leasedb)
+	}
 	if r == nil {
 		vnd.Cover("no-reply")
 		vnd.Assert(stop, "C02 nil response only with stop")
@@ -237,6 +252,11 @@ func VerifH_range_step() {
 		vnd.Assert(o != nil && u32of(o.IP.To4()) == w.otherIP, "C02 other clients' bindings are untouched")
 	}
 	if rec == nil {
+		return
+	}
+	if w.dbfail {
+		vnd.Cover("write-failed")
+		vnd.Observe("lease", []byte(yi), lt)
 		return
 	}
 	// C03: the store holds exactly this binding, written before the reply is returned
